@@ -237,9 +237,17 @@ func (w *responseWriter) writeHeader(status int) error {
 		if strings.HasPrefix(k, http.TrailerPrefix) {
 			continue
 		}
+		// RFC 9114, section 4.2: connection-specific header fields must not be sent,
+		// the peer treats a response containing them as malformed.
+		if isConnectionSpecificHeader(strings.ToLower(k)) {
+			continue
+		}
 		for index := range v {
 			name := strings.ToLower(k)
 			value := v[index]
+			if name == "te" && value != "trailers" {
+				continue
+			}
 			if err := enc.WriteField(qpack.HeaderField{Name: name, Value: value}); err != nil {
 				return err
 			}
@@ -259,6 +267,15 @@ func (w *responseWriter) writeHeader(status int) error {
 
 	_, err := w.str.writeUnframed(buf)
 	return err
+}
+
+func isConnectionSpecificHeader(lowercaseName string) bool {
+	for _, n := range invalidHeaderFields {
+		if n == lowercaseName {
+			return true
+		}
+	}
+	return false
 }
 
 func (w *responseWriter) FlushError() error {
